@@ -266,6 +266,10 @@ func c16Menu() []c16Item {
 
 func runC16(r *core.Run) {
 	runC16Perms(r)
+	for _, cn := range []string{"footnote", "all+xhtml"} {
+		docsSub(r, "count-families/"+cn, "the indexed families of CountDocs (n footnotes referenced once or twice with definitions after or before, and the other n-item families, for EVERY n up to the bound) under "+cn+": same output-consistency oracle",
+			core.MustCfg(cn), CountDocs(core.Pick(r, 150, 400)), func(s *core.Sub, cv *core.Conv, w []byte) { c16Case(s, cv, w) })
+	}
 	menu := c16Menu()
 	idx := make([]string, len(menu))
 	for i := range idx {
